@@ -14,7 +14,7 @@ EVIDENCE = dict(
     rule="(1) every token stream of <= 4 (thorough 5) tokens over {name,int,<<,>>,[,],lone '>'} from ParserLoop.tla through "
          "core.Parser / contentstream.Parser; (2) every reference graph on 3 nodes from GraphWalk.tla rendered as a /Kids tree and a "
          "/Prev chain and walked by every entry point incl. ResolveDeep; (3) Faults.tla: every (format, fault kind, site selector, "
-         "parameter) single fault over 8 base documents (2 PDF layouts, DOCX, ODT, XLSX, PPTX, EPUB, HTML), thorough adds "
+         "parameter) single fault over 8 base documents (2 PDF layouts, DOCX, ODT, XLSX, PPTX, EPUB, HTML), every numeric field x 4 extreme values and every reference x 3 retargets at every site; thorough adds "
          "truncation at every token boundary and -simulate double faults; each damaged input goes through 11-13 public entry "
          "points inside watched child processes. ParserLoop / GraphWalk are checked for Termination under weak fairness, their "
          "pinned variants refuted. Recorded Call events validated by FaultsTrace.tla. Non-trivial = input actually damaged.",
@@ -43,8 +43,17 @@ def run(ctx):
             cases.append({"toks": t["toks"]})
     for g in graphs:
         cases.append({"graph": g["graph"]})
+    for sp in ("lenstm", "len2cycle"):       # cycles that run through stream /Length entries
+        cases.append({"special": sp})
     for f in faults:
         cases.append({"fmt": f["fmt"], "faults": f["faults"], "k": k})
+    # numeric fields: every site of every base document, every extreme value (sizes, counts, widths, offsets)
+    for fmt in ("pdf-classic", "pdf-stream", "docx", "odt", "xlsx", "pptx", "epub", "html"):
+        for val in ("0", "-1", "2147483648", "9223372036854775807"):
+            cases.append({"fmt": fmt, "faults": [{"kind": "number", "site": 0, "param": val}], "all": True})
+    for fmt in ("pdf-classic", "pdf-stream"):
+        for tgt in ("self", "ancestor", "missing"):
+            cases.append({"fmt": fmt, "faults": [{"kind": "retarget", "site": 0, "param": tgt}], "all": True})
     if not q:
         for fmt in ("pdf-classic", "pdf-stream", "html"):
             cases.append({"fmt": fmt, "faults": [{"kind": "truncate", "site": 0, "param": "-"}], "all": True})
